@@ -23,6 +23,7 @@ package main
 
 import (
 	"fmt"
+	"sync"
 	"go/token"
 	"math"
 	"math/big"
@@ -102,11 +103,20 @@ func (e *Exec) softFloatToInt(s *State, fs *FloatSym, w int, signed bool) Value 
 		}
 		sec := BinBV(OpUDiv, ad, BV(64, 1000000000))
 		rem := BinBV(OpURem, ad, BV(64, 1000000000))
-		e.h.noteAssumption("SecondsOf contract: trunc(d.Seconds()) == d/1e9 for |d| < 2^23 s; d/1e9 or d/1e9+1 (only if d%1e9 != 0) for |d| < 2^33 s")
-		s.symStrN++
-		slack := Var(fmt.Sprintf("secslack!%d!%d", d.ID, s.symStrN), 0)
-		// slack may be true only in regime 2 with a fractional part
-		s.assume(Implies(slack, And(Cmp(OpUle, lim1, ad), Not(Eq(rem, BV(64, 0))))))
+		e.h.noteAssumption("SecondsOf: trunc(d.Seconds()) == d/1e9 + [d/1e9 in [2^k,2^(k+1)) and d%1e9 >= N_k], thresholds N_k (k=24..33) computed from the float64 arithmetic of this machine at start-up and cross-checked on sampled values")
+		// exact: the float sum rounds up to sec+1 only in the binades where the
+		// spacing of float64 exceeds 2e-9, and only above a per-binade
+		// threshold on the nanosecond part (secondsThresholds)
+		slack := False
+		for _, th := range secondsThresholds() {
+			lo := BV(64, uint64(1)<<uint(th.k))
+			in := Cmp(OpUle, lo, sec)
+			if th.k < 63 {
+				in = And(in, Cmp(OpUlt, sec, BV(64, uint64(1)<<uint(th.k+1))))
+			}
+			slack = Or(slack, And(in, Cmp(OpUle, BV(64, uint64(th.n)), rem)))
+		}
+		_ = lim1
 		secp := BinBV(OpAdd, sec, BoolToBV(slack, 64))
 		if len(fs.Ops) == 0 {
 			return pick(Ite(neg, Neg(secp), secp))
@@ -195,4 +205,83 @@ func narrowU(x *Term, w int) *Term {
 		return Extract(w-1, 0, x)
 	}
 	return Zext(x, w)
+}
+
+type secThreshold struct {
+	k int
+	n int64
+}
+
+var secThr []secThreshold
+var secThrOnce sync.Once
+
+// secondsOfNative is the body of time.Duration.Seconds followed by truncation.
+func secondsOfNative(sec, nsec int64) int64 {
+	return int64(float64(sec) + float64(nsec)/1e9)
+}
+
+// secondsThresholds: for every binade [2^k, 2^(k+1)) of whole seconds that an
+// int64 duration can reach, the smallest nanosecond part for which
+// float64(sec)+float64(nsec)/1e9 rounds up to sec+1 (none below 2^24 s). The
+// threshold is independent of sec within the binade (the addend is the same
+// and the float spacing is constant); this is cross-checked on the binade's
+// end points and on pseudo-random seconds, and the engine refuses to run if a
+// check fails.
+func secondsThresholds() []secThreshold {
+	secThrOnce.Do(func() {
+		for k := 0; k <= 33; k++ {
+			lo := int64(1) << uint(k)
+			hi := int64(1)<<uint(k+1) - 1
+			if hi > math.MaxInt64/1000000000 {
+				hi = math.MaxInt64 / 1000000000
+			}
+			if lo > hi {
+				break
+			}
+			if secondsOfNative(lo, 999999999) == lo {
+				// never rounds up in this binade
+				if secondsOfNative(hi, 999999999) != hi {
+					panic("engine: Seconds threshold not uniform in binade")
+				}
+				continue
+			}
+			a, b := int64(0), int64(999999999) // smallest n with round-up
+			for a < b {
+				mid := (a + b) / 2
+				if secondsOfNative(lo, mid) == lo+1 {
+					b = mid
+				} else {
+					a = mid + 1
+				}
+			}
+			n := a
+			x := uint64(88172645463325252)
+			secs := []int64{lo, hi, lo + 1, hi - 1}
+			for i := 0; i < 2000; i++ {
+				x ^= x << 13
+				x ^= x >> 7
+				x ^= x << 17
+				secs = append(secs, lo+int64(x%uint64(hi-lo+1)))
+			}
+			for _, sc := range secs {
+				if sc < lo || sc > hi {
+					continue
+				}
+				for _, ns := range []int64{0, 1, n - 2, n - 1, n, n + 1, 999999998, 999999999} {
+					if ns < 0 || ns > 999999999 {
+						continue
+					}
+					want := sc
+					if ns >= n {
+						want++
+					}
+					if secondsOfNative(sc, ns) != want {
+						panic(fmt.Sprintf("engine: Seconds threshold model wrong at sec=%d nsec=%d", sc, ns))
+					}
+				}
+			}
+			secThr = append(secThr, secThreshold{k, n})
+		}
+	})
+	return secThr
 }
